@@ -590,13 +590,6 @@ func commonExpPair(p *core.Program, fn *types.Func) bool {
 func C05(c *core.Ctx) {
 	// the operations of package num are the units of this analysis: each is judged
 	// on its own body, they are not dissolved into one another
-	if pk := c.P.Pkg("num"); pk != nil {
-		for _, fd := range c.P.RawFuncs(pk) {
-			if fd.Obj.Exported() {
-				c.P.Anchor(fd.Obj)
-			}
-		}
-	}
 	p := c.P
 	c.Explain("Decided for package num: (R1) the only way a floating-point intermediate becomes an integer value is int64(math.Round(x)) — math.Round is round-half-away-from-zero and sign-symmetric; no Floor/Ceil/Trunc/RoundToEven and no other float→int conversion exists; (R2) exponent-dimension consistency of every amount operation: each quantity expression is given a symbolic decimal scale (a linear form over the exponents in scope; value fields carry their amount's exponent, intPow(10,e) carries e, products add, quotients subtract); sums, differences and comparisons need equal scales, every Amount literal must be labelled with the scale of its value, and each operation's result carries its documented precision (receiver's, or the requested one for Rescale); (R3) Split's remainder is the original minus (parts−1) times the quotient; (R4) the threshold rules' comparison table, folded over cmp ∈ {−1,0,1}, equals the relation named by the error each constructor attaches (≥, ≤, >, <, ≠), and Compare returns −1/0/1 for </==/>. Not decided: exactness of float64 products/quotients within 2^52 (a numerical argument), overflow.")
 	c.Rule("C05-R1", "float→integer only through int64(math.Round(x))", 4)
